@@ -140,16 +140,20 @@ func Canon(f *parser.File) []CNode {
 
 // Comments returns every comment token (line and block) of the text in order,
 // whitespace-normalised per line, tagged with its kind.
-func Comments(text string) ([]string, error) {
+func Comments(text string) (out []string, err error) {
+	defer func() {
+		if r := recover(); r != nil {
+			out, err = nil, fmt.Errorf("lexer panicked: %v", r)
+		}
+	}()
 	l := parser.NewLexer(text)
-	toks, ok, err := l.AllTokens(true)
-	if err != nil {
-		return nil, err
+	toks, ok, lerr := l.AllTokens(true)
+	if lerr != nil {
+		return nil, lerr
 	}
 	if !ok {
 		return nil, fmt.Errorf("lexer errors: %v", l.Errors)
 	}
-	var out []string
 	for _, tk := range toks {
 		switch tk.Type {
 		case parser.COMMENT:
